@@ -6,6 +6,7 @@ comparison of raw weights reaches a branch, an index or the result; (WRAP) is_da
 "topological_ordering returned"; (GATE) each constructor / API gate raises ValueError from that verdict,
 on the very matrix it then stores or uses, before storing or using it; (PRECHECK) the self-loop /
 two-cycle pre-check tests `a != 0 and b != 0` on every pair including the diagonal.
+Also decided: (OWN) deciding acyclicity never writes the matrix it is asked about (Kahn's loop works on its own copy).
 Not decided: the inductive correctness of Kahn's loop itself.
 """
 from .common import *
